@@ -15,6 +15,7 @@ rounds < k saw the body write).
 from __future__ import annotations
 
 import ast
+import os
 import time
 from dataclasses import dataclass, field
 from typing import Any, Callable, Dict, List, Optional, Tuple
@@ -258,6 +259,7 @@ class Context:
 
     def env_class(self, env) -> ClassDesc:
         cd = self._add_class(env.name, list(getattr(env, "bases", [])), "env", env)
+        cd.info = env                      # the latest instance carries the per-path hooks
         self.env_classes[env.name] = env
         return cd
 
@@ -419,9 +421,13 @@ class Interp:
 
     def _check(self, *extra):
         self.ctx.stats["feasibility_checks"] += 1
+        t0 = time.time()
         r = self.solver.check(*extra)
+        dt = time.time() - t0
         if r == z3.unknown:
             self.ctx.stats["feasibility_unknown"] += 1
+        if dt > 1.0 and os.environ.get("PYVC_DEBUG"):
+            print(f"[slow check {dt:.1f}s {r}] {self.cur_func}:{self.cur_line} extra={str(extra)[:300]}", flush=True)
         return r
 
     def choose(self, cond, label="") -> bool:
